@@ -316,8 +316,8 @@ func main() {
 		violated := false
 		for pass := 0; pass < 2; pass++ {
 			prune := pass == 0
-			if !prune && len(sc.Threads) > 2 && !r.Thorough() {
-				continue // unpruned cross-check only where cheap
+			if !prune && (len(sc.Threads) > 2 || r.Expired()) {
+				continue // unpruned cross-check only where cheap (two threads)
 			}
 			ex := &vsched.Explorer{Bound: -1, Prune: prune, MaxExecs: 2_000_000}
 			ex.Run = func(prefix []int) *vsched.Result {
@@ -341,11 +341,15 @@ func main() {
 				}
 				return res
 			}
-			ex.Check = func(*vsched.Result) bool { return true }
+			ex.Check = func(*vsched.Result) bool { return !r.Expired() }
 			ex.Explore()
 			execs[pass] = ex.Execs
 			if ex.Capped != "" {
 				r.Cap("execution cap reached in some scenario: " + ex.Capped)
+			}
+			if ex.Stopped {
+				r.Cap("wall-clock budget: some scenarios only partly explored")
+				violated = true // incomplete: do not compare pruned and unpruned outcome sets
 			}
 			r.Max("points_per_execution", int64(ex.MaxPoints))
 		}
